@@ -151,6 +151,30 @@ theorem rebase_clean (q p : Path) (perf : List (Path × Path)) (hc : ∀ pr ∈ 
       have := pre_append_left hh
       rw [(hc pr hm).2] at this; cases this
 
+theorem executedFrom_clean (q : Path) : ∀ (perf acc : List (Path × Path)),
+    (∀ pr ∈ acc, clean q pr) → (∀ pr ∈ perf, clean q pr) → ∀ pr ∈ executedFrom acc perf, clean q pr := by
+  intro perf
+  induction perf with
+  | nil => intro acc _ _ pr hm; cases hm
+  | cons x rest ih =>
+    intro acc hacc hperf pr hm
+    have hx := hperf x (List.mem_cons_self ..)
+    unfold executedFrom at hm
+    rcases List.mem_cons.mp hm with h | h
+    · rw [h]; exact ⟨rebase_clean q x.1 acc hacc hx.1, hx.2⟩
+    · refine ih (acc ++ [x]) ?_ (fun pr hm => hperf pr (List.mem_cons_of_mem _ hm)) pr h
+      intro pr hm
+      rcases List.mem_append.mp hm with hm | hm
+      · exact hacc pr hm
+      · rw [List.mem_singleton.mp hm]; exact hx
+
+theorem rollbackList_clean (q : Path) (perf : List (Path × Path)) (hc : ∀ pr ∈ perf, clean q pr) :
+    ∀ pr ∈ rollbackList perf, clean q pr := by
+  unfold rollbackList
+  split
+  · exact executedFrom_clean q perf [] (by intro pr hm; cases hm) hc
+  · exact hc
+
 theorem renamePhase_frame (q : Path) : ∀ (rs : List Ren) (t : Tree) (perf : List (Path × Path)),
     (∀ pr ∈ perf, clean q pr) → (∀ r ∈ rs, pre r.path q = false ∧ pre r.newPath q = false) →
     lookup (renamePhase t perf rs).tree q = lookup t q := by
@@ -178,12 +202,41 @@ theorem renamePhase_frame (q : Path) : ∀ (rs : List Ren) (t : Tree) (perf : Li
       exact renameTS_frame t t' _ _ q _ _ hres haf hat
     | error e =>
       simp only
-      have hrev : ∀ pr ∈ perf.reverse, clean q pr := fun pr hm => hc pr (List.mem_reverse.mp hm)
-      have := rollback_frame q perf.reverse t none hrev
-      cases hrb : rollback t perf.reverse none with
+      have hrev : ∀ pr ∈ (rollbackList perf).reverse, clean q pr :=
+        fun pr hm => rollbackList_clean q perf hc pr (List.mem_reverse.mp hm)
+      have := rollback_frame q (rollbackList perf).reverse t none hrev
+      cases hrb : rollback t (rollbackList perf).reverse none with
       | mk t' oe =>
         rw [hrb] at this
         cases oe <;> simpa using this
+
+theorem renamePhase_performed_clean (q : Path) : ∀ (rs : List Ren) (t : Tree) (perf : List (Path × Path)),
+    (∀ pr ∈ perf, clean q pr) → (∀ r ∈ rs, pre r.path q = false ∧ pre r.newPath q = false) →
+    ∀ pr ∈ (renamePhase t perf rs).performed, clean q pr := by
+  intro rs
+  induction rs with
+  | nil => intro t perf hc _; exact hc
+  | cons r rs ih =>
+    intro t perf hc hr
+    have hr0 := hr r (List.mem_cons_self ..)
+    have hrs : ∀ r ∈ rs, pre r.path q = false ∧ pre r.newPath q = false := fun r hm => hr r (List.mem_cons_of_mem _ hm)
+    have hat := rebase_clean q r.newPath perf hc hr0.2
+    unfold renamePhase
+    simp only
+    cases hres : renameTS t (rebase perf r.path) (trailingSlash perf r.path) (rebase perf r.newPath)
+        (trailingSlash perf r.newPath) with
+    | ok t' =>
+      simp only
+      have hc' : ∀ pr ∈ perf ++ [(r.path, rebase perf r.newPath)], clean q pr := by
+        intro pr hm
+        rcases List.mem_append.mp hm with hm | hm
+        · exact hc pr hm
+        · rw [List.mem_singleton.mp hm]; exact ⟨hr0.1, hat⟩
+      exact ih t' _ hc' hrs
+    | error e =>
+      simp only
+      cases hrb : rollback t (rollbackList perf).reverse none with
+      | mk t' oe => cases oe <;> exact hc
 
 -- content phase -----------------------------------------------------------------------------------------
 
@@ -343,7 +396,13 @@ theorem applyPlan_frame (t : Tree) (p : Plan) (q : Path) (h : planned p q = fals
       · unfold backupPhase
         split
         · rw [hrp]; exact hc
-        · simp only; rw [hrp]; exact hc
+        · have hpc := renamePhase_performed_clean q (sortRens p.rens) t1 [] (by intro pr hm; cases hm) hrens
+          have hrev : ∀ pr ∈ (rollbackList (renamePhase t1 [] (sortRens p.rens)).performed).reverse, clean q pr :=
+            fun pr hm => rollbackList_clean q _ hpc pr (List.mem_reverse.mp hm)
+          have hrb := rollback_frame q _ (renamePhase t1 [] (sortRens p.rens)).tree none hrev
+          split
+          · split <;> (simp only; rename_i heq; rw [heq] at hrb; simp only at hrb; rw [hrb, hrp]; exact hc)
+          · simp only; rw [hrp]; exact hc
       · rw [hrp]; exact hc
   · have hpf' : preflightOk t p.rens = false := by simpa using hpf
     simp [hpf']
